@@ -676,12 +676,51 @@ func TestC33(t *testing.T) {
 		run.Note("deadline: part B completed %d of %d host partitions", doneParts, len(parts))
 	}
 
+	// ---- part C: host names are case-insensitive. A virtual-hosted name spelled with upper-case
+	// letters either addresses the same resource as its lower-case spelling or is not served as an
+	// API name at all (no effect) - it never addresses ANOTHER resource.
+	evalsC := 0
+	for _, e := range c33EndpointPairs {
+		up := strings.ToUpper(e.API[:1]) + e.API[1:]
+		for _, variant := range []string{"bkt." + up, "bkt." + strings.ToUpper(e.API) + ":9000", "BKT." + e.API} {
+			for _, m := range []string{"PUT", "DELETE", "GET"} {
+				for _, path := range []string{"/k", "/fresh", "/plain", "/"} {
+					if run.Expired() {
+						break
+					}
+					res := map[string]string{}
+					var initial string
+					for _, host := range []string{variant, strings.ToLower(variant)} {
+						w := world.New(world.Config{Stack: world.StackSQL})
+						c33PopulateWeb(w.Storage, e)
+						initial = c33StateOf(w, true)
+						h := server.SetupServer(nil, "eu-central-1", e.API, e.Web, c3xAllowAll{}, c3xNewRecStorage(w.Storage))
+						r := c3xWireRequest(m, host, path, nil, c33WebBodyFor(m, ""))
+						c3xServe(h, r)
+						res[host] = c33StateOf(w, true)
+						w.Destroy()
+					}
+					evalsC++
+					if got, want := res[variant], res[strings.ToLower(variant)]; got != initial && got != want {
+						violCount["host-case-variant-addresses-other-resource"]++
+						if violCount["host-case-variant-addresses-other-resource"] == 1 {
+							run.Report(ev.Violation{Class: "host-case-variant-addresses-other-resource",
+								Summary: fmt.Sprintf("%s %s with Host %s (api endpoint %q): effect differs from both 'no effect' and the effect of Host %s: %s", m, path, variant, e.API, strings.ToLower(variant), c33Diff(want, got)),
+								Replay:  map[string]any{"part": "C", "host": variant, "method": m, "path": path, "endpoints": e}})
+						}
+					}
+				}
+			}
+		}
+	}
+	run.Cov["evaluations_part_c_host_case_variants"] = evalsC
+
 	run.Cov["evaluations"] = evalsA + evalsB
 	run.Cov["evaluations_part_a_pairs"] = evalsA
 	run.Cov["part_a_worlds"] = worldsA
 	run.Cov["evaluations_part_b_requests"] = evalsB
 	run.Cov["distinct_nontrivial"] = len(distinct)
-	run.Cov["rule"] = "A: endpoint pair{siblings,defaults} x bucket{bkt,my-bucket,b.c.d} x port x (key list incl. trailing '/', '//', percent, space, non-ASCII, encoded '/') x 13 object operations + 20 bucket operations, each sent path-style and virtual-hosted (one world per style; the operations of one bucket/key run in lockstep on both, reads first; worlds are rebuilt after a divergence; the first mismatches of a class are confirmed on fresh worlds); non-trivial = at least one storage call was made. B: 16 website/custom-domain hosts per endpoint pair (incl. names that end in an endpoint without a label boundary) x 7 methods x paths x subresource queries x copy-source header; non-trivial = reaches storage or uses a non-safe method"
+	run.Cov["rule"] = "A: endpoint pair{siblings,defaults} x bucket{bkt,my-bucket,b.c.d} x port x (key list incl. trailing '/', '//', percent, space, non-ASCII, encoded '/') x 13 object operations + 20 bucket operations, each sent path-style and virtual-hosted (one world per style; the operations of one bucket/key run in lockstep on both, reads first; worlds are rebuilt after a divergence; the first mismatches of a class are confirmed on fresh worlds); non-trivial = at least one storage call was made. B: 16 website/custom-domain hosts per endpoint pair (incl. names that end in an endpoint without a label boundary) x 7 methods x paths x subresource queries x copy-source header; non-trivial = reaches storage or uses a non-safe method. C: virtual-hosted names spelled with upper-case letters x {PUT,DELETE,GET} x 4 paths, each against its lower-case spelling on fresh worlds"
 	run.Cov["part_a_status_differs_only"] = statusOnly
 	run.Cov["part_b_requests_reaching_storage"] = reached
 	run.Cov["part_b_mutating_storage_calls_attempted"] = mutAttempt
